@@ -470,6 +470,8 @@ class PyvcExecutor(StmtMixin, Executor):
         if hasattr(v, "isinstance"):
             return v.isinstance(self, st, names)
         for nm in names:
+            if nm == "type" and isinstance(v, (ModRef, FuncRef)):
+                return True
             if nm == "bool" and (isinstance(v, (bool, z3.BoolRef))):
                 return True
             if nm == "int" and ((isinstance(v, int)) or (isinstance(v, z3.ArithRef) and v.sort() == z3.IntSort())):
